@@ -363,6 +363,15 @@ func newSrvRun(cfg srvConfig, out *bufio.Writer) *srvRun {
 	if cfg.rpclog {
 		opts.RPCLog = rpcLogger{r}
 	}
+	// a Logger: in racing scenarios every log call hands the processor over (a slow log sink), which widens the
+	// windows around the library's log calls - those between two critical sections above all
+	opts.Logger = func(string) {
+		if r.race {
+			for i := 0; i < 3; i++ {
+				runtime.Gosched()
+			}
+		}
+	}
 	if cfg.deadlines {
 		opts.NewContext = func() context.Context {
 			ctx, cancel := context.WithTimeout(context.Background(), 5*time.Second)
@@ -452,6 +461,8 @@ func (r *srvRun) feedErr(kind string) {
 		err = errOther
 		if r.cfg.timeoutErr {
 			err = errTimeout
+		} else if r.cfg.K%2 == 1 {
+			err = errWrapsEOF
 		}
 	}
 	r.log.item("env\tfeed\terr\t%s", kind)
